@@ -291,7 +291,10 @@ def precedence_rule(ctx, crate, rule):
             for lb in local_reads:
                 facts = dom_facts(fb, lb)
                 # reached only after env::var(key) failed
-                if not any(a[0] == "discr" and v == "Err" and a[1][0] == "call" and mir.short(a[1][1]) == "std::env::var"
+                # (`env::var(k)` matched as Err, or `env::var(k).ok()` as None)
+                if not any(a[0] == "discr" and v in ("Err", "None") and a[1][0] == "call" and (
+                        mir.short(a[1][1]) == "std::env::var" or (v == "None" and last_seg(a[1][1]) == "ok" and any(
+                            s_[0] == "call" and mir.short(s_[1]) == "std::env::var" for s_ in mir.subexprs(fb.expand_vars(a[1])))))
                            for a, v in facts):
                     bad.append(p)
                     where = where or fb.loc(lb)
